@@ -5,6 +5,8 @@ package main
 import (
 	"flag"
 	"fmt"
+	"io"
+	"log"
 	"os"
 	"runtime"
 	"sort"
@@ -26,6 +28,7 @@ var drivers = map[string]driver{}
 func register(prop string, d driver) { drivers[prop] = d }
 
 func main() {
+	log.SetOutput(io.Discard)
 	if runtime.GOOS != "linux" || runtime.GOARCH != "amd64" {
 		fmt.Fprintln(os.Stderr, "implrun: only linux/amd64 is supported (float->uint64 conversion, int width)")
 		os.Exit(3)
